@@ -16,6 +16,11 @@ import Fv.Props.C01
   whose final state respects the capacity and accounts for every accepted value. Missing: the
   quantification over every prefix of the history (the checker accepts prefixes too, not exported as
   a theorem) and the elimination of `pf` for complete histories.
+* `C03_spurious_full_needs_overlap`, `C03_tomb_raised_only_by_overlap`, `C03_tomb_cleared_by_walk` — the one
+  place where the concurrent specification lets a non-blocking send on the bounded mpsc stop short (Full)
+  below capacity: another send is in flight, or SKIP tombstones of an overshooting claim may still occupy
+  the ticket window (`tomb > 0`); `tomb` is raised only when a send returns while another send is in flight,
+  and it is cleared as soon as the consumer walks to the end of the ring with no send in flight.
 -/
 namespace Fv.Props.C03
 open Fv.Chan List
@@ -101,5 +106,48 @@ theorem C03_linearizable_capacity_partial (fl : Flavour) (cfg : Cfg) (h : Histor
       count v (received h) + pendSum gotOf v pf + count v sf.owed + count v sf.buf + count v sf.chanDropped := by
   obtain ⟨pf, ha, _⟩ := linearize_acc hl
   exact ⟨ha.inv.cap, Fv.Props.C01.C01_accepted_accounted fl cfg h q sf hl⟩
+
+/-- Concurrent specification: the extra (concurrent-only) steps of a pending send form are a short stop
+(`Full`) of a NON-blocking form on the bounded mpsc — admitted only while another send is in flight or
+tombstones may occupy the window — and the `Closed` of a blocking form that finds the receivers gone. -/
+theorem C03_spurious_full_needs_overlap {fl : Flavour} {cfg : Cfg} {s s' : St} {t : Nat} {f : Form} {h : HName}
+    {sent rest : List Val} {q : Nat} {p' : P}
+    (hm : (s', p') ∈ microSpur fl cfg s (.bsend t f h sent rest q)) :
+    (fl.fam = .mb ∧ f.blocking = false ∧ (s.inflight > 1 ∨ s.tomb > 0)) ∨
+      (f.blocking = true ∧ receiversGone fl s = true) := by
+  simp only [microSpur, mem_append] at hm
+  rcases hm with hm | hm
+  · split at hm
+    · rename_i hc
+      left
+      exact ⟨hc.1, by simpa using hc.2.1, hc.2.2⟩
+    · simp at hm
+  · split at hm
+    · rename_i hc
+      right
+      exact ⟨hc.1, hc.2⟩
+    · simp at hm
+
+/-- `tomb` changes at a return event only on the bounded mpsc, when the returning send overlapped another one. -/
+theorem C03_tomb_raised_only_by_overlap (fl : Flavour) (cfg : Cfg) (s : St) (op : Op)
+    (hne : (retire fl cfg s op).tomb ≠ s.tomb) : fl.fam = .mb ∧ s.inflight > 1 := by
+  unfold retire at hne
+  split at hne
+  · split at hne
+    · simp only at hne
+      split at hne
+      · assumption
+      · exact absurd rfl hne
+    · exact absurd rfl hne
+  · exact absurd rfl hne
+
+/-- … and the consumer's walk to the end of the ring with no send in flight clears it. -/
+theorem C03_tomb_cleared_by_walk (fl : Flavour) (s : St) (hf : fl.fam = .mb) (h0 : s.inflight = 0) :
+    (mbFlush fl s).tomb = 0 := by
+  simp [mbFlush, hf, h0]
+
+/-- non-vacuity: a state with a tombstone flag in which the short stop is offered -/
+example : (microSpur ⟨.mb, .mpsc, 5, false⟩ linCfg { (init ⟨.mb, .mpsc, 5, false⟩) with tomb := 1, inflight := 1 }
+    (.bsend 1 .trySend ⟨.tx, 0⟩ [] [9] 0)).length = 1 := by decide
 
 end Fv.Props.C03
